@@ -32,7 +32,15 @@ PAR_REDUCTIONS = ('max', 'max_by', 'min', 'min_by', 'max_by_key', 'min_by_key', 
 _CANDIDATE = {'k': 'const', 'ty': 'fn', 'fn': 'pk::candidate', 'fn_canon': 'pk::candidate', 'fn_local': False, 'gargs': [], 'synthetic': True}
 
 
-def _is_consumer(t):
+_VEC_NEW = {'k': 'const', 'ty': 'fn', 'fn': 'std::vec::Vec::<T>::new', 'fn_canon': 'alloc::vec::{impl#0}::new', 'fn_local': False,
+            'gargs': [], 'resolved': 'std::vec::Vec::<T>::new', 'resolved_canon': 'alloc::vec::{impl#0}::new', 'resolved_local': False,
+            'synthetic': True}
+_VEC_PUSH = {'k': 'const', 'ty': 'fn', 'fn': 'std::vec::Vec::<T, A>::push', 'fn_canon': 'alloc::vec::{impl#1}::push', 'fn_local': False,
+             'gargs': [], 'resolved': 'std::vec::Vec::<T, A>::push', 'resolved_canon': 'alloc::vec::{impl#1}::push',
+             'resolved_local': False, 'synthetic': True}
+
+
+def _is_consumer(t, collects=False):
     fc = t['func']
     if fc.get('k') != 'const' or 'fn' not in fc:
         return None
@@ -43,6 +51,9 @@ def _is_consumer(t):
     if not tr.endswith('iterator::Iterator') and not tr.endswith('iter::Iterator'):
         return None
     last = fc['fn'].rsplit('::', 1)[-1]
+    if collects and last == 'collect' and (t.get('dest') or {}).get('ty', '').startswith('std::vec::Vec<'):
+        # collect::<Vec<_>>() = { let mut v = Vec::new(); for x in it { v.push(x) }; v }   (opt-in: nest_form(collects=True))
+        return 'collect'
     if last not in CONSUMERS:
         return None
     res = fc.get('resolved_canon') or ''
@@ -87,9 +98,9 @@ def _item_ty(fc):
     return g[0] if g else '?'
 
 
-def desugar_once(body):
+def desugar_once(body, collects=False):
     """Rewrite every consumer call of `body`; returns (new body, count)."""
-    sites = [(bi, t, _is_consumer(t)) for bi, t in body.calls()]
+    sites = [(bi, t, _is_consumer(t, collects)) for bi, t in body.calls()]
     sites = [(bi, t, k) for bi, t, k in sites if k and t.get('target') is not None]
     if not sites:
         return body, 0
@@ -150,6 +161,9 @@ def desugar_once(body):
             acc_ty = dest.get('ty', '?')
             acc_l = w.local(acc_ty)
             pre.append(_assign(_pl(acc_l, acc_ty), {'r': 'use', 'a': copy.deepcopy(args[1])}, span))
+        if kind == 'collect':
+            acc_ty = dest.get('ty', '?')
+            acc_l = w.local(acc_ty)
         if kind == 'sum':
             acc_ty = dest.get('ty', '?')
             acc_l = w.local(acc_ty)
@@ -164,7 +178,7 @@ def desugar_once(body):
                               {'t': 'goto', 'target': target, 'span': span})
             ex_hit = w.block([_assign(copy.deepcopy(dest), {'r': 'use', 'a': {'k': 'const', 'ty': 'bool', 'bool': kind == 'any'}}, span)],
                              {'t': 'goto', 'target': target, 'span': span})
-        elif kind in ('fold', 'sum'):
+        elif kind in ('fold', 'sum', 'collect'):
             ex_none = w.block([_assign(copy.deepcopy(dest), {'r': 'use', 'a': _op(acc_l, dest.get('ty', '?'))}, span)],
                               {'t': 'goto', 'target': target, 'span': span})
         else:
@@ -188,7 +202,14 @@ def desugar_once(body):
         w.blocks[sw]['term'] = {'t': 'switch', 'discr': _op(d_l, 'isize'), 'arms': [['0', ex_none]], 'otherwise': bodyb, 'span': span}
         some0 = [{'downcast': 'Some', 'vi': 1}, {'f': 0, 'n': '0', 'of': 'std::option::Option<?item>', 'ty': '?item'}]
         w.blocks[bodyb]['stmts'].append(_assign(_pl(x_l, '?item'), {'r': 'use', 'a': _op(n_l, '?item', some0)}, span))
-        if kind == 'sum':
+        if kind == 'collect':
+            vr_l = w.local('&mut ' + acc_ty)
+            u_l = w.local('()')
+            w.blocks[bodyb]['stmts'].append(_assign(_pl(vr_l), {'r': 'ref', 'mut': True, 'bk': 'Mut', 'place': _pl(acc_l, acc_ty)}, span))
+            w.blocks[bodyb]['term'] = {'t': 'call', 'func': dict(_VEC_PUSH), 'args': [_op(vr_l, '&mut ' + acc_ty), _op(x_l, '?item')],
+                                       'dest': _pl(u_l, '()'), 'target': hdr, 'unwind': None, 'span': span, 'fn_span': t.get('fn_span'),
+                                       'syn': 'collect'}
+        elif kind == 'sum':
             w.blocks[bodyb]['stmts'].append(_assign(_pl(acc_l, acc_ty), {'r': 'binop', 'op': 'Add', 'a': _op(acc_l, acc_ty, k='copy'),
                                                                        'b': _op(x_l, acc_ty), 'syn': 'sum'}, span))
             w.blocks[bodyb]['term'] = {'t': 'goto', 'target': hdr, 'span': span}
@@ -218,7 +239,11 @@ def desugar_once(body):
                 w.blocks[after]['term'] = {'t': 'goto', 'target': hdr, 'span': span}
             else:
                 w.blocks[after]['term'] = {'t': 'goto', 'target': hdr, 'span': span}
-        w.blocks[bi]['term'] = {'t': 'goto', 'target': hdr, 'span': span, 'syn_consumer': kind}
+        if kind == 'collect':
+            w.blocks[bi]['term'] = {'t': 'call', 'func': dict(_VEC_NEW), 'args': [], 'dest': _pl(acc_l, acc_ty), 'target': hdr,
+                                    'unwind': None, 'span': span, 'fn_span': t.get('fn_span'), 'syn': 'collect', 'syn_consumer': kind}
+        else:
+            w.blocks[bi]['term'] = {'t': 'goto', 'target': hdr, 'span': span, 'syn_consumer': kind}
     nb = Body(w.raw, body.crate_kind)
     nb.key_in_facts = getattr(body, 'key_in_facts', body.path)
     nb.inlined = list(getattr(body, 'inlined', []))
@@ -370,12 +395,12 @@ def desugar_options_once(body):
     return nb, len(sites)
 
 
-def loop_form(facts, body, rounds=6):
+def loop_form(facts, body, rounds=6, collects=False):
     """Desugar consumers and splice the closures they call, until nothing changes (closures may contain consumers)."""
     cur = body
     n_total = 0
     for _ in range(rounds):
-        cur2, n = desugar_once(cur)
+        cur2, n = desugar_once(cur, collects)
         cur2, n2 = desugar_options_once(cur2)
         n += n2
         if n == 0:
@@ -642,7 +667,7 @@ def with_yield_loop(body):
     return nb, True
 
 
-def nest_form(facts, body, rounds=24, yields=True):
+def nest_form(facts, body, rounds=24, yields=True, collects=False):
     """loop_form + the function's returned iterator read as a yield loop + adaptor fusion, to a fixed point."""
     cur = body
     did_yield = False
@@ -650,7 +675,7 @@ def nest_form(facts, body, rounds=24, yields=True):
         cur, did_yield = with_yield_loop(cur)
     fused = []
     for _ in range(rounds):
-        cur2 = loop_form(facts, cur)
+        cur2 = loop_form(facts, cur, collects=collects)
         cur3, kind = fuse_once(cur2)
         if kind is None:
             cur = cur2
